@@ -18,8 +18,9 @@ def main():
     ap.add_argument("--replay")
     ap.add_argument("--seed", type=int, default=None)
     args = ap.parse_args()
-    if os.environ.get("PYTHONHASHSEED") != "0":
-        env = dict(os.environ, PYTHONHASHSEED="0")
+    if os.environ.get("PYTHONHASHSEED") != "0" or os.environ.get("OMP_NUM_THREADS") != "1":
+        # one BLAS/OpenMP thread per worker process: the 16 workers already use every core
+        env = dict(os.environ, PYTHONHASHSEED="0", OMP_NUM_THREADS="1", OPENBLAS_NUM_THREADS="1", MKL_NUM_THREADS="1")
         os.execve(sys.executable, [sys.executable] + sys.argv, env)
     os.chdir(HERE)
     sys.path.insert(0, HERE)
